@@ -50,6 +50,58 @@ def run(ctx: Ctx) -> int:
                 good = next((sh, s) for sh, o, s in runs if o == ref)
                 ctx.fail(f"bind:{cls}.{meth}", f"{cls}.{meth}: equivalent calls produce different firmware — e.g. `{good[1].splitlines()[-1]}` vs `{bad[1].splitlines()[-1]}`",
                          {"script_a": good[1], "script_b": bad[1]})
+    # an explicitly passed falsy value (0, 0.0, False) is a value, not an omission
+    import importlib, inspect
+    hosts = {"Led": "Reduino.Actuators", "RGBLed": "Reduino.Actuators", "Servo": "Reduino.Actuators", "DCMotor": "Reduino.Actuators", "Buzzer": "Reduino.Actuators",
+             "LCD": "Reduino.Displays.LCD", "Button": "Reduino.Sensors", "SerialMonitor": "Reduino.Communication"}
+    for cls, meth, params in bindprobe.callables():
+        if cls not in hosts:
+            continue
+        fn = getattr(getattr(importlib.import_module(hosts[cls]), cls), meth)
+        sig = inspect.signature(fn)
+        if (cls, meth) == ("LCD", "__init__"):
+            params = [(n, k, d and n not in ("rs", "en", "d4", "d5", "d6", "d7")) for n, k, d in params]
+        v1 = {n: bindprobe.values_for(cls, meth, n)[0] for n, _, _ in params}
+        pos = [n for n, k, _ in params if k == "pos"]
+        req = [n for n, k, d in params if not d]
+        for n, kind, dflt in params:
+            if not dflt:
+                continue
+            d = sig.parameters[n].default
+            if isinstance(d, bool) or not isinstance(d, (int, float)) or d == 0:
+                continue
+            # required parameters (and optional positional ones before n, when n goes positionally) as usual; n = 0
+            for route in ("kw", "pos") if kind == "pos" else ("kw",):
+                if route == "pos":
+                    k = pos.index(n) + 1
+                    kws = [r for r in req if r not in pos[:k]]
+                else:
+                    k = 0
+                    for q in pos:
+                        if q in req:
+                            k += 1
+                        else:
+                            break
+                    kws = [r for r in req if r not in pos[:k]] + [n]
+                vals = dict(v1); vals[n] = "0"
+                with_zero = cxx.transpile(bindprobe.call_text(cls, meth, params, (None, k, tuple(kws)), vals))[0]
+                base_k = min(k, sum(1 for q in pos[:k] if q != n)) if route == "pos" else k
+                omitted_kws = [r for r in kws if r != n]
+                if route == "pos":
+                    # omit n and everything positional after it
+                    base_k = pos.index(n)
+                    omitted_kws = [r for r in req if r not in pos[:base_k]]
+                    if any(q not in req for q in pos[:base_k]) and False:
+                        continue
+                omitted = cxx.transpile(bindprobe.call_text(cls, meth, params, (None, base_k, tuple(omitted_kws)), v1))[0]
+                ctx.case(f"falsy:{cls}.{meth}.{n}.{route}", nontrivial=True)
+                if with_zero is not None and omitted is not None:
+                    # positional route: earlier optional positionals are provided in `with_zero` but not in `omitted`; compare only when none exist
+                    if route == "pos" and any(q not in req for q in pos[:pos.index(n)]):
+                        continue
+                    if with_zero == omitted:
+                        ctx.fail(f"bind:{cls}.{meth}:falsy-as-omitted", f"{cls}.{meth}({n}=0) generates the same firmware as omitting {n} (default {d!r})",
+                                 {"script": bindprobe.call_text(cls, meth, params, (None, k, tuple(kws)), vals)})
     # value-variation tables (the regenerated Lean tables) restated as an oracle, so that a violation has a concrete replay
     for cls, meth, params, rows in extract.probe_bindings():
         for k, kws, outcome, unseen in rows:
